@@ -646,7 +646,8 @@ pub fn e2_jobs(prop: &str, tier: Tier) -> Vec<E2Job> {
                                 v.push(l);
                             }
                             // the same panic carrying a typed payload (`panic_any` of a type that is neither &str nor String)
-                            if c.len() == 1 {
+                            // (quick tier: for plans of <= 2 operations; thorough tier: for every plan)
+                            if c.len() == 1 && (!q || p.len() <= 2) {
                                 s.panic_typed = true;
                                 v.push(s);
                             }
